@@ -209,7 +209,27 @@ def run_c12(F, R, tier='quick'):
              'n is the number of values the sums run over' if nk == 'count' else
              'n is the configured window length while the sums run over the k <= N values present: before the window is full '
              'n·Σx² − (Σx)² and n·Σxt − ΣxΣt move with a common offset of the inputs (CTI(4) on 1,2 reports 0.870388, on 11,12 0.626372)')
-    R.decline('negation symmetry of the views with mirrored branches (Min <-> -Max, Rsi -> 100 - Rsi, MyRSI, NET, HLNormalizer) is not decided: it needs pairing of mirrored branches; decided for Vsct, Vst, CTI, TrendFlex, ReFlex by parity typing')
+    # negation clause for NoiseEliminationTechnology: its code orders sign-changing quantities, so parity typing rejects it by design;
+    # the clause is a consequence of structure C06 verifies: every pair of window values is compared exactly once and contributes
+    # +1 / -1 / 0 when the newer value is larger / smaller / equal -- an odd function of the difference, with ties neutral -- divided
+    # by the pair count. Negating the input negates every difference, hence the sum. Those premises are checked here.
+    from .e_trend import net_rules
+    n1 = len(R.obligations)
+    net_rules(F, R, tier)
+    net_ok = all(o[2] for o in R.obligations[n1:]) and any(o[0] == 'NET-P3' for o in R.obligations[n1:])
+    R.ob('P-structure', 'NoiseEliminationTechnology', net_ok,
+         'pair contributions are an odd function of the pair difference (ties 0) over all pairs: negating every input negates the output'
+         if net_ok else 'the antisymmetric pair-sum structure the negation clause rests on is not verified (see the NET-* findings)')
+    # Min(-x) = -Max(x): both are verified to be the extremum -- in opposite directions -- of the same exact window of inner
+    # outputs (window rule W1, extremum rules X1/X2 with the scan direction); min(-w) = -max(w) for any window w.
+    from .e_window import check_extrema, check_windows
+    n2 = len(R.obligations)
+    check_windows(F, R, ['Min', 'Max'], 'W1')
+    check_extrema(F, R, {'Min': 1, 'Max': 1})
+    mm_ok = all(o[2] for o in R.obligations[n2:]) and len(R.obligations) > n2
+    R.ob('P-structure', 'Min<->Max', mm_ok, 'Min and Max are the minimum and the maximum of the same exact window: negating the input swaps them with a sign'
+         if mm_ok else 'the extremum structure the Min <-> -Max clause rests on is not verified (see the W1/X* findings)')
+    R.decline('negation symmetry of the views with mirrored branches (Rsi -> 100 - Rsi, MyRSI, HLNormalizer) is not decided: it needs pairing of mirrored branches; decided for Vsct, Vst, CTI, TrendFlex, ReFlex by parity typing for NET from its verified antisymmetric pair sum and for Min <-> -Max from the verified extremum structure')
 
 
 def run_c10(F, R):
